@@ -131,6 +131,9 @@ class Gen:
                 toff = self.r.choice([0, 0, self.unit, -self.unit, 1, -1, 3, -3, 5, -7, 4 * self.unit + 1, -8 * self.unit - 1])
             else:
                 toff = self.r.choice([0, 0, 0, self.unit, -self.unit, 4 * self.unit, -8 * self.unit])
+        # 8-byte data fields can hold any offset: a quarter of them get one beyond 32 bits (decided from the PRNG state without drawing from it)
+        if size == 8 and templ == 0 and (self.r.s >> 11) % 4 == 0 and not fmt.startswith("x86.8."):
+            toff = [1 << 32, -(1 << 32), 1 << 31, -(1 << 31) - 1, (1 << 40) + 5, -(1 << 45) + 3][(self.r.s >> 13) % 6]
         self.emit(self.placeholder(shape))
         self.lines.append(f"{op} {name} {toff} {foff} {roff} {fmt}")
 
@@ -540,6 +543,15 @@ class Oracle:
                 v = self.value(dict(r, toff=0), r["name"], bufaddr)
             else:
                 tgt = self.designated(r, c)
+                if tgt is None:
+                    # no definition by the time its batch is committed: that commit fails and the reference stays registered (f2a32e6); the
+                    # first later commit by which a definition exists patches it
+                    for c2 in self.commits:
+                        if c2 > c and self.designated(r, c2) is not None:
+                            tgt = self.designated(r, c2)
+                            break
+                    if tgt is None:
+                        continue
                 v = self.value(r, tgt, bufaddr)
             start = r["loc"] - r["foff"]
             size = fmt_size(r["fmt"])
